@@ -313,3 +313,79 @@ Proof.
       * unfold pend_after. rewrite Hoj, Hq. rewrite decide_True by done. by rewrite Hnew.
       * eapply pend_after_other; try done. by apply Hother.
 Qed.
+
+(* running a job keeps phases and ids *)
+Lemma arun_acts_lookup j (A : list aactor) (a : nat) x : A !! a = Some x ->
+  exists x', arun_acts j A !! a = Some x' /\ ph x' = ph x /\ aop x' = aop x.
+Proof.
+  intros Ha. destruct j as [o|o c|o c]; cbn; [eauto| |].
+  all: destruct (decide (c = a)) as [->|]; [rewrite list_lookup_alter, Ha; cbn; eauto|rewrite list_lookup_alter_ne by done; eauto].
+Qed.
+
+Lemma sim_run F s a ac q newst j js :
+  s.(actors) !! a = Some ac -> oj s q = Some (Some a, js) ->
+  handl q ac.(opctr) ac.(stack) = [j] -> handl q ac.(opctr) newst = [] ->
+  (forall q', q' <> q -> handl q' ac.(opctr) newst = handl q' ac.(opctr) ac.(stack)) ->
+  aph newst = aph ac.(stack) ->
+  pend s q = j :: js /\
+  veq (view (setstack (run_job F s j) a newst))
+      {| v_acts := arun_acts j (v_acts (view s)); v_pend := fupd q js (v_pend (view s)); v_ran := job_id j :: v_ran (view s); v_next := v_next (view s) |}.
+Proof.
+  intros Ea Hq Hold Hnew Hother Hph.
+  destruct (run_job_view F s j) as (R1 & R2 & R3 & R4).
+  destruct (sim_unhand s a ac (run_job F s j) q newst j js _ Ea R2 R1) as [P1 P2]; try done.
+  { intros q'. apply oj_run_job. }
+  split; [done|]. eapply veq_trans; [exact P2|].
+  split; [|split; [|split]]; cbn [view v_acts v_pend v_ran v_next]; try done.
+  destruct (arun_acts_lookup j (acts s) a (aact ac) (acts_lookup s a ac Ea)) as (x' & E1 & E2 & _).
+  eapply alter_set_ph_same; [exact E1|]. rewrite E2. cbn. done.
+Qed.
+
+(* a new operation starts *)
+Lemma sim_call s a ac fr l :
+  s.(actors) !! a = Some ac -> (forall q o, handl q o ac.(stack) = []) -> (forall q o, hand_fr q o fr = []) ->
+  veq (view (setstack (upda (s <| nextop := S (nextop s) |>) a
+                            (fun x => x <| opctr := nextop s |> <| ready := false |> <| result := false |>)) a [fr; FTop l]))
+      {| v_acts := <[a := {| ph := api_phase fr; aop := nextop s; ares := false; ardy := false |}]> (v_acts (view s));
+         v_pend := v_pend (view s); v_ran := v_ran (view s); v_next := S (v_next (view s)) |}.
+Proof.
+  intros Ea Hold Hfr.
+  split; [|split; [|split]]; cbn [view v_acts v_pend v_ran v_next]; try done.
+  - apply list_eq. intros i. unfold acts. rewrite list_lookup_fmap, actors_setstack_lookup, actors_upda_lookup.
+    change (actors (s <| nextop := S (nextop s) |>)) with (actors s).
+    destruct (decide (a = i)) as [<-|Hne].
+    + rewrite Ea. cbn [fmap option_fmap option_map]. rewrite list_lookup_insert; [done|]. rewrite fmap_length. by eapply lookup_lt_Some.
+    + rewrite list_lookup_insert_ne by done. by rewrite list_lookup_fmap.
+  - intros q. apply pend_view; [done|]. intros b. unfold hv. rewrite actors_setstack_lookup, actors_upda_lookup.
+    change (actors (s <| nextop := S (nextop s) |>)) with (actors s).
+    case_decide; [|done]. subst b. rewrite Ea. cbn. rewrite Hfr, Hold. done.
+Qed.
+
+(* a pool thread is spawned *)
+Lemma sim_spawn s a ac newst (new : actor) TH :
+  s.(actors) !! a = Some ac -> Inv s -> aph newst = aph ac.(stack) ->
+  (forall q, handl q ac.(opctr) newst = handl q ac.(opctr) ac.(stack)) ->
+  (forall q, handl q new.(opctr) new.(stack) = []) ->
+  veq (view (setstack (s <| threads := TH |> <| actors := s.(actors) ++ [new] |>) a newst))
+      {| v_acts := v_acts (view s) ++ [aact new]; v_pend := v_pend (view s); v_ran := v_ran (view s); v_next := v_next (view s) |}.
+Proof.
+  intros Ea HI Hph Hhand Hnew. assert (Hlt : a < length (actors s)) by (by eapply lookup_lt_Some).
+  set (s1 := s <| threads := TH |> <| actors := s.(actors) ++ [new] |>).
+  assert (Ea1 : actors s1 !! a = Some ac) by (subst s1; cbn; by rewrite lookup_app_l).
+  split; [|split; [|split]]; cbn [view v_acts v_pend v_ran v_next]; try done.
+  - rewrite acts_setstack. change (acts s1) with (aact <$> (actors s ++ [new])). rewrite fmap_app.
+    change (aact <$> [new]) with [aact new]. change (aact <$> actors s) with (acts s).
+    eapply alter_set_ph_same; [rewrite lookup_app_l; [by apply acts_lookup|unfold acts; by rewrite fmap_length]|]. cbn. done.
+  - intros q. unfold pend. rewrite oj_setstack. change (oj s1 q) with (oj s q).
+    destruct (oj s q) as [[[b|] js]|] eqn:Eo; [|done|done]. f_equal.
+    assert (Hb : b < length (actors s)).
+    { unfold oj in Eo. destruct (queues s !! q) as [qq|] eqn:Eq; [|done]. cbn in Eo. injection Eo as Eo _. by eapply (inv_valid s HI q qq). }
+    unfold hv. rewrite actors_setstack_lookup. case_decide; subst.
+    + rewrite Ea1, Ea. cbn. by rewrite Hhand.
+    + subst s1. cbn [actors set]. by rewrite lookup_app_l.
+Qed.
+
+Lemma acq_free s q qq : Inv s -> s.(queues) !! q = Some qq -> qq.(qs) <> Running -> qq.(owner) = None.
+Proof. intros [_ I2 _] Hq Hn. destruct (owner qq) eqn:E; [|done]. exfalso. apply Hn, (I2 q qq Hq). by eexists. Qed.
+Lemma oj_lookup s q qq : s.(queues) !! q = Some qq -> oj s q = Some (qq.(owner), qq.(jobs)).
+Proof. unfold oj. by intros ->. Qed.
